@@ -48,7 +48,9 @@ def run_one(patch: str, tier: str = "quick") -> tuple[bool, str, float]:
     try:
         r = subprocess.run([os.path.join(VERIF, "check"), prop, "--tier", tier], capture_output=True, text=True, env=env, timeout=1800)
         caught = r.returncode == 1 and "VIOLATION property=" in r.stdout
-        lines = [ln for ln in r.stdout.splitlines() if ln.startswith(("VIOLATION", "  C", "KNOWN"))][:4]
+        lines = [ln for ln in r.stdout.splitlines() if ln.startswith(("VIOLATION", "  C"))][:4]
+        lines += [ln[:90] for ln in r.stdout.splitlines() if ln.startswith("KNOWN")][:2]
+        lines += [ln for ln in r.stdout.splitlines() if " runs=" in ln][-1:]
         detail = f"rc={r.returncode} " + " | ".join(lines)
         if r.returncode == 2:
             detail += " STDERR: " + r.stderr[-600:]
